@@ -262,7 +262,7 @@ def gen_sibs(rng, n, allow_dup, quote_p=0.0, long_p=0.15, pre_p=0.15, corner_p=0
 def gen_input(rng, tier, level=None):
     if level is None:
         level = "free" if rng.random() < 0.6 else "netlist"
-    quote_p = 0.01
+    quote_p = 0.0015
     if level == "free":
         n = rng.choice([1, 2, 2, 3, 3, 4, 5, 6, 8, 12]) if rng.random() < 0.93 else rng.randint(13, 40)
         return {"level": "free", "scope": rng.choice(SCOPES), "sibs": gen_sibs(rng, n, allow_dup=True, quote_p=quote_p)}
@@ -278,7 +278,7 @@ def gen_input(rng, tier, level=None):
     inp["netlist_name"] = gen_sibs(rng, 1, False, quote_p, pre_p=0.0)[0]["name"]
     inp["top_name"] = gen_sibs(rng, 1, False, quote_p, pre_p=0.0)[0]["name"]
     # widths of the cables / ports (1 = scalar)
-    inp["cable_w"] = [1 if rng.random() < 0.8 else rng.randint(2, 3) for _ in inp["cables"]]
+    inp["cable_w"] = [1 if rng.random() < 0.9 else rng.randint(2, 3) for _ in inp["cables"]]
     inp["port_w"] = [1 if rng.random() < 0.8 else rng.randint(2, 3) for _ in inp["ports"]]
     return inp
 
@@ -418,6 +418,53 @@ def impl_netlist(inp, tmpdir):
             "top_index": list(home.definitions).index(top)}
 
 
+def reparse_guarded(res, risky, timeout=6.0):
+    """`reparse`, in a forked child with a wall-clock limit when `risky` (the reader's string-token
+    regular expression backtracks exponentially after a `%`; `re` cannot be interrupted in-process)."""
+    if not risky:
+        return reparse(res)
+    import select
+    r, w = os.pipe()
+    pid = os.fork()
+    if pid == 0:
+        try:
+            os.close(r)
+            out = json.dumps(reparse(res)).encode()
+            os.write(w, out)
+        except BaseException as e:  # noqa
+            try:
+                os.write(w, json.dumps({"raised": "other", "msg": "child: " + repr(e)[:150]}).encode())
+            except Exception:
+                pass
+        finally:
+            os._exit(0)
+    os.close(w)
+    buf = b""
+    t_end = time.time() + timeout
+    try:
+        while True:
+            left = t_end - time.time()
+            if left <= 0:
+                os.kill(pid, 9)
+                return {"hang": True, "msg": "sdn.parse of the written file did not return within %.0f s" % timeout}
+            rd, _, _ = select.select([r], [], [], left)
+            if rd:
+                chunk = os.read(r, 1 << 16)
+                if not chunk:
+                    break
+                buf += chunk
+    finally:
+        os.close(r)
+        try:
+            os.waitpid(pid, 0)
+        except Exception:
+            pass
+    try:
+        return json.loads(buf.decode())
+    except Exception:
+        return {"raised": "other", "msg": "child returned nothing"}
+
+
 def reparse(res):
     """Parse the written file; names per scope as the re-read netlist shows them."""
     import spydrnet as sdn
@@ -448,6 +495,18 @@ def reparse(res):
 # --------------------------------------------------------------------------------------------
 import re as _re
 _BRACKET = _re.compile(r"\[[0-9]+\]$")
+
+
+def classify_cable_names(cab_obs, cab_w, got):
+    """The re-read cable names differ from the written ones.  Known reader conventions that rename
+    cables (each a pinned finding with its own sub-domain); anything else is a new failure."""
+    if any(w > 1 and o["ident"] != o["name"] for o, w in zip(cab_obs, cab_w)):
+        # multi-wire cable whose name is not itself an identifier: the reader's bus-merging heuristics
+        # (`&_` identifiers, backslash names, ...) do not restore the cable
+        return "compose_parse.renamed-bus-cable"
+    if any(w == 1 and _BRACKET.search(o["name"]) for o, w in zip(cab_obs, cab_w)):
+        return "compose_parse.cable-name-bracket-index"      # scalar net `x[3]` re-read as bit 3 of `x`
+    return "compose_parse.names-differ.cables"
 
 
 class Runner:
@@ -635,16 +694,24 @@ class Runner:
                 self.res.dist("netlist.reparse-skipped (identifiers already violate P)")
                 return sigs
             # (c) the "hence": the file reads back and shows the original names
-            rr = reparse(r)
+            allnames = [s["name"] for sc in SCOPES for s in inp[sc]] + [inp["netlist_name"], inp["top_name"]]
+            rr = reparse_guarded(r, any("%" in n for n in allnames))
             sig = None
             detail = ""
-            allnames = [s["name"] for sc in SCOPES for s in inp[sc]] + [inp["netlist_name"], inp["top_name"]]
-            if "raised" in rr:
+            cab_obs = r["scopes"]["cables"]["obs"]
+            cab_w = r["widths"]["cables"]
+            if "hang" in rr:
+                sig = "compose_parse.percent-in-name-reader-hangs"
+                detail = rr["msg"]
+            elif "raised" in rr:
                 if any(QUOTE in n for n in allnames):
                     sig = "compose_parse.quote-in-name"
-                elif any(w > 1 and len(o["ident"]) + len("_%d_" % (w - 1)) > 255
-                         for w, o in zip(r["widths"]["cables"], r["scopes"]["cables"]["obs"])):
+                elif any(w > 1 and len(o["ident"]) + len("_%d_" % (w - 1)) > 255 for w, o in zip(cab_w, cab_obs)):
                     sig = "compose_parse.bus-bit-identifier-too-long"
+                elif rr["raised"] == "index" and any(o["name"].endswith("[") for o in cab_obs):
+                    sig = "compose_parse.cable-name-ends-with-open-bracket"
+                elif any(w > 1 and o["ident"] != o["name"] for o, w in zip(cab_obs, cab_w)):
+                    sig = "compose_parse.renamed-bus-cable"
                 else:
                     sig = "compose_parse.reader-rejects-written-file"
                 detail = rr["msg"]
@@ -655,8 +722,8 @@ class Runner:
                     if want != got:
                         if any(QUOTE in n for n in allnames):
                             sig = "compose_parse.quote-in-name"
-                        elif sc == "cables" and any(_BRACKET.search(n) for n in want):
-                            sig = "compose_parse.cable-name-bracket-index"
+                        elif sc == "cables":
+                            sig = classify_cable_names(cab_obs, cab_w, got)
                         else:
                             sig = "compose_parse.names-differ." + sc
                         detail = "scope %s: written %r re-read %r" % (sc, [w[:30] for w in want][:6], [g[:30] for g in got][:6])
@@ -664,7 +731,7 @@ class Runner:
             if sig:
                 sigs.add(sig)
                 if report:
-                    small = self.shrink_netlist(inp, sig)
+                    small = inp if "hang" in rr else self.shrink_netlist(inp, sig)
                     self.res.spec_failure(sig, small, detail)
                     self.res.dist("P.fail." + sig)
             else:
